@@ -206,6 +206,18 @@ M("c03-fallback-unconditional", "C03", "cola/libavoid/connector.cpp",
 M("c03-path0-from-dst", "C03", "cola/libavoid/connector.cpp",
   "    path[0] = m_src_vert->point;", "    path[0] = m_dst_vert->point;", mention=["ENDPOINTS"])
 
+M("c03-sweep-border-only-crossing-edges", "C03", "cola/libavoid/visibility.cpp",
+  "        if (kPrev && (kPrev != centerInf) &&\n                pointOnLine(kPrev->point, k->point, centerInf->point))\n        {\n            onBorderIDs.insert(k->id.objID);\n        }\n        if (kNext && (kNext != centerInf) &&\n                pointOnLine(kNext->point, k->point, centerInf->point))\n",
+  "        if (kPrev && (kPrev != centerInf) && (vecDir(centerInf->point, xaxis, kPrev->point) == AHEAD) &&\n                pointOnLine(kPrev->point, k->point, centerInf->point))\n        {\n            onBorderIDs.insert(k->id.objID);\n        }\n        if (kNext && (kNext != centerInf) && (vecDir(centerInf->point, xaxis, kNext->point) == AHEAD) &&\n                pointOnLine(kNext->point, k->point, centerInf->point))\n",
+  mention=["SWEEP-BORDER"])
+M("c03-neutral-sweep-border-one-role", "C03", "cola/libavoid/visibility.cpp",
+  "        if (kNext && (kNext != centerInf) &&\n                pointOnLine(kNext->point, k->point, centerInf->point))\n        {\n            onBorderIDs.insert(k->id.objID);\n        }\n",
+  "", expect="silent")
+M("c03-side-line-through-blocked-stretch", "C03", "cola/libavoid/orthogonal.cpp",
+  "                    LineSegment *line = segments.insert(\n                            LineSegment(minLimit, minLimitMax, lineX));\n\n                    // Shape corner:\n                    VertInf *vI1 = new VertInf(router, dummyOrthogShapeID,\n                                Point(lineX, minShape));",
+  "                    LineSegment *line = segments.insert(\n                            LineSegment(minLimit, maxLimitMin, lineX));\n\n                    // Shape corner:\n                    VertInf *vI1 = new VertInf(router, dummyOrthogShapeID,\n                                Point(lineX, minShape));",
+  mention=["FREE-SIDE-LINES"])
+
 # ---------------------------------------------------------------- C04
 M("c04-f-ignores-h", "C04", "cola/libavoid/makepath.cpp",
   "            // The A* formula\n            node.f = node.g + node.h;\n\n#ifdef ASTAR_DEBUG", "            // The A* formula\n            node.f = node.g;\n\n#ifdef ASTAR_DEBUG",
@@ -530,6 +542,16 @@ M("c19-neutral-rename", "C19", "cola/libdialect/peeling.cpp",
   "        vector<Stem_SP> stems = makeStemsFromLeaves(leaves);\n        const size_t nStems = stems.size(); (void) nStems;\n        buckets.severNodes(leaves);", expect="silent")
 
 # ---------------------------------------------------------------- C13 corner tables
+M("c13-prune-forgets-out-segment", "C13", "cola/libtopology/topology_graph.cpp",
+  "    inSegment->forEachStraightConstraint(transfer);\n    outSegment->forEachStraightConstraint(transfer);\n",
+  "    inSegment->forEachStraightConstraint(transfer);\n", mention=["PRUNE-MERGE"])
+M("c13-prune-count-kept", "C13", "cola/libtopology/topology_graph.cpp",
+  "    e->nSegments--;\n    delete inSegment;", "    delete inSegment;", mention=["PRUNE-MERGE"])
+M("c13-degenerate-first-branch-wrong-pred", "C13", "cola/libtopology/topology_constraints_constructor.cpp",
+  "                    && !validTurn(o->inSegment->start,p,q)) {", "                    && !validTurn(o,p,q)) {", mention=["PRUNE-DEGENERATE"])
+M("c13-neutral-prune-lambda", "C13", "cola/libtopology/topology_graph.cpp",
+  "    Segment::TransferStraightConstraint transfer = \n        std::bind(&Segment::transferStraightConstraint,s,std::placeholders::_1);",
+  "    Segment::TransferStraightConstraint transfer = \n        [s](StraightConstraint* c) { s->transferStraightConstraint(c); };", expect="silent")
 M("c13-straight-corner-swapped", "C13", "cola/libtopology/topology_constraints_constructor.cpp",
   "             ? (nodeLeft ? EdgePoint::TL : EdgePoint::BL)\n             : (nodeLeft ? EdgePoint::TR : EdgePoint::BR);",
   "             ? (nodeLeft ? EdgePoint::BL : EdgePoint::TL)\n             : (nodeLeft ? EdgePoint::TR : EdgePoint::BR);", mention=["CORNER-TABLES", "createStraightConstraint"])
